@@ -212,10 +212,10 @@ Proof. exists ex_vro. apply ex_vro_keep. Qed.
 
 (* ---- inhabited ----  ex_fw (Proofs/SetupFullExample.v): from the state ex_libb (libb 1.0 and base 1.0 set up),
    setup --keep base 2.0  switches the requested product and leaves libb as it is;  setup --keep app  sets up app and
-   liba, keeps libb, and keeps base at 1.0 although libb's table asks for base 2.0 (without --keep the same
-   request replaces base 1.0 by base 2.0). *)
+   liba and keeps libb and base;  setup --keep libb  processes libb's table again and keeps base at 1.0 although that
+   table asks for base 2.0 (without --keep the same request replaces base 1.0 by base 2.0). *)
 Example c04_keep_inhabited :
-  WF2 (fw_products ex_fw) (dl_of ex_world) (rank_of ex_order) /\ c_keep ex_cfg_keep = true /\ ex_flavors <> [] /\
+  WF2 (fw_products ex_fw) (SetupWf.dl_of ex_world) (rank_of ex_order) /\ c_keep ex_cfg_keep = true /\ ex_flavors <> [] /\
   (exists st' tr,
      request_full_simple ex_fw ex_cfg_keep default_config ex_flavors 20 ex_libb (lit "base") (Some (lit "2.0")) true false
        = Ok (Some st', tr) /\
@@ -227,11 +227,19 @@ Example c04_keep_inhabited :
      find_setup_product ex_world (s_env st') (lit "base") = find_pv ex_world (lit "base") (lit "1.0") /\
      find_setup_product ex_world (s_env st') (lit "liba") = find_pv ex_world (lit "liba") (lit "1.0")) /\
   (exists st' tr,
-     request_full_simple ex_fw ex_cfg default_config ex_flavors 20 ex_libb (lit "app") None true false
+     request_full_simple ex_fw ex_cfg_keep default_config ex_flavors 20 ex_libb (lit "libb") None true false
+       = Ok (Some st', tr) /\
+     find_setup_product ex_world (s_env st') (lit "base") = find_pv ex_world (lit "base") (lit "1.0")) /\
+  (exists st' tr,
+     request_full_simple ex_fw ex_cfg default_config ex_flavors 20 ex_libb (lit "libb") None true false
        = Ok (Some st', tr) /\
      find_setup_product ex_world (s_env st') (lit "base") = find_pv ex_world (lit "base") (lit "2.0")).
 Proof.
   split; [apply wf2_check_sound; vm_compute; reflexivity|]. split; [reflexivity|]. split; [discriminate|].
-  split; [|split]; eexists; eexists; repeat split; vm_compute; reflexivity.
+  split; [|split; [|split]]; eexists; eexists.
+  - split; [vm_compute; reflexivity|]. split; vm_compute; reflexivity.
+  - split; [vm_compute; reflexivity|]. split; vm_compute; reflexivity.
+  - split; vm_compute; reflexivity.
+  - split; vm_compute; reflexivity.
 Qed.
 Print Assumptions c04_keep_inhabited.
